@@ -18,7 +18,11 @@ CLASS = ("class", "Acc", [("n", "int"), ("other", "Self?")], [("start", "int"), 
           ("me", [], "Self", [("return", V("self"))]),
           ("link", [("o", "Self")], None, [("setfield", V("self"), "other", V("o"))]),
           ("via", [("by", "int")], "int", [("return", ("mcall", ("get", ("field", V("self"), "other")), "add", [V("by")]))]),
-          ("same", [("o", "Self")], "bool", [("return", ("is", V("o"), V("self")))])])
+          ("same", [("o", "Self")], "bool", [("return", ("is", V("o"), V("self")))]),
+          # a call chain on `self` whose first link may return ANOTHER instance; a target expression with a side effect
+          ("peer", [], "Self", [("return", ("or", ("field", V("self"), "other"), V("self")))]),
+          ("chain", [("by", "int")], "int", [("return", ("mcall", ("mcall", V("self"), "peer", []), "add", [V("by")]))]),
+          ("step", [], "Self", [("setfield", V("self"), "n", B("+", ("field", V("self"), "n"), I(1))), ("return", ("or", ("field", V("self"), "other"), V("self")))])])
 
 NAMES = ["a", "b", "c", "d"]
 
@@ -33,13 +37,22 @@ def history(rnd, length):
     out = [("assign", "a", ("call", "Acc", [V("in0"), ("nil",)])), ("assign", "b", ("call", "Acc", [V("in1"), V("a")])),
            ("assign", "reg", ("list", [V("a"), V("b")]), "[Acc...]")]
     for _ in range(length):
-        k = rnd.choice(["add", "add", "peek", "field", "setfield", "is", "alias", "me", "link", "via", "new", "newchild", "elem", "twice", "same", "other_is"])
+        k = rnd.choice(["add", "add", "peek", "field", "setfield", "is", "alias", "me", "link", "via", "new", "newchild", "elem", "twice", "same", "other_is",
+                        "chain", "chain", "opfield", "opfield_step", "peer_add"])
         x = V(rnd.choice(live))
         y = V(rnd.choice(live))
         if k == "add":
             out.append(("print", ("mcall", x, "add", [arg(rnd)])))
         elif k == "twice":
             out.append(("print", ("mcall", x, "twice", [arg(rnd)])))
+        elif k == "chain":
+            out.append(("print", ("mcall", x, "chain", [arg(rnd)])))
+        elif k == "peer_add":
+            out.append(("print", ("mcall", ("mcall", x, "peer", []), "add", [arg(rnd)])))
+        elif k == "opfield":
+            out.append(("opfield", x, "n", rnd.choice("+-"), arg(rnd)))
+        elif k == "opfield_step":
+            out.append(("opfield", ("mcall", x, "step", []), "n", "+", arg(rnd)))
         elif k == "peek":
             out.append(("print", ("mcall", x, "peek", [])))
         elif k == "field":
